@@ -291,6 +291,7 @@ fn doc_object(rng: &mut Rng, ty: usize, size: usize) -> Result<(c16::Obj, c16::O
                 };
             } else {
                 setup.ctor = c12::Ctor::Df;
+                c12::unify_kinds(&mut setup);
                 setup.interp = c12::INTERPS[ty - 7].to_string();
                 cal = CalChoice::Named("all".into());
             }
